@@ -680,12 +680,39 @@ BOUNDED = [
           classify=_classify_boundary),
     Stage('B1:sheet-ids-distinct', 'C04', lambda tier, rng: [('all',)], _check_sheet_distinct,
           'ids of the 154 (workbook, sheet) pairs are pairwise distinct', parallel=False),
+    Stage('B1:defined-name-spellings', 'C04', lambda tier, rng: [('name', n) for n in _NAMES], lambda case: _check_name(case[1]),
+          '%d defined names (dotted names whose first segment looks like an A1 / R1C1 cell address, underscores, digits) in three letter cases, '
+          'inside formulas: one reference token, one identifier whatever the case' % 14, parallel=False),
     Stage('A:upper-axioms', 'C04', lambda tier, rng: [(lo, min(lo + 0x8000, 0x110000)) for lo in range(0, 0x110000, 0x8000)],
           lambda case: _check_upper_axioms(*case),
           'the engine\'s axioms about str.upper() on arbitrary text, checked on every code point (upper() is character-wise): '
           'idempotent, never empty, creates/removes none of the punctuation [ ] \' ! : / and blank', exhaustive=True, parallel=False,
           weight=lambda case: case[1] - case[0]),
 ]
+
+
+_NAMES = ['sales', 'Q1.sales', 'FY21.total', 'R1C1.x', 'tax_rate', 'a.b.c', '_x1', 'H2.rev', 'ABC1_total', 'x.1', 'XFD1.n', 'R2.total', 'C3.k', 'rate.Q4']
+
+
+def _check_name(name):
+    import formulas
+    ids = set()
+    for sp in (name, name.lower(), name.upper()):
+        for tmpl in ('=%s+1', '=SUM(%s,2)', '=IF(%s>0,%s,0)'):
+            text = tmpl.replace('%s', sp)
+            try:
+                f = formulas.Parser().ast(text)[1].compile()
+            except Exception as ex:
+                return 'the defined name %r is not read as a reference in %r (%s)' % (sp, text, type(ex).__name__)
+            inputs = list(f.inputs)
+            if len(inputs) != 1:
+                return '%r: the defined name %r is read as the references %r' % (text, sp, inputs)
+            ids.add(inputs[0])
+    if len(ids) != 1:
+        return 'letter case changes the identifier of the defined name %r: %r' % (name, sorted(ids))
+    if ids != {name.upper()}:
+        return 'the defined name %r has the identifier %r' % (name, sorted(ids))
+    return None
 
 
 def _check_upper_axioms(lo, hi):
